@@ -24,4 +24,6 @@ def lookup(prop):
         from .worlds import registry as w
 
         return (w,) + w.describe(prop)
-    raise SystemExit("unknown property %r" % prop)
+    from . import kernel
+
+    raise kernel.HarnessError("no check is registered for %r (claimed: C06, C07, C10, C20)" % prop)
